@@ -23,6 +23,23 @@
 //	                            otherwise the assigned variables are merged through a tuple)
 //	switch with fallthrough   → a chain of guarded arms ("entered" flag carried along fallthrough)
 //	calls of other translated functions of the same package → application; len → length
+//	for i := a; i < b; i++ {…} → a helper definition `<fn>_loop<k>` by structural recursion on a fuel argument: one
+//	(also i <= b; i++, i > b;   unfolding = test the condition, run the body, step by one; the call site passes as fuel the
+//	 i--, i >= b; i--)          trip count ((b - a).toNat, +1 for <=, a and b swapped for the descending forms), exact whenever
+//	                            the loop runs without i wrapping around (the condition is false at once otherwise; a loop
+//	                            that only ends by wrap-around in Go is NOT represented). Accepted only when the body
+//	                            contains no break / continue / goto / return / closure and assigns neither i nor a
+//	                            variable of the bound b. The variables assigned in the body are the loop-carried state.
+//	for i := range x, for i, v := range x, for _, v := range x (x a []byte variable) → the counted loop it abbreviates
+//	                            (i from 0 below len(x), v := x[i] at the head of the body)
+//	bits.LeadingZeros64/32/8(x) → BitVec.clz (zero-extended to int)
+//	copy(dst[a:], src), copy(dst, src) (dst a []byte / [n]byte variable) → goCopyAt (defined in the generated file)
+//	u[i], u[j] = e1, e2       → all right-hand sides into temporaries, then the stores left to right
+//	var u [n]byte             → List.replicate n 0
+//	"externs" (targets.json)  → a function of the package that is NOT translated (unsafe pointer code): its Lean
+//	                            definition is given in targets.json (TRUSTED, printed in the generated file under the
+//	                            word EXTERN) together with the Go source text it was written for; a change of that
+//	                            source text is a translation error (the extern must be re-validated by hand).
 //	"segments": a consecutive run of statements of a function, translated as a function of the variables it reads
 //	to the variables it assigns (or to its return value).
 package main
@@ -60,6 +77,15 @@ type Module struct {
 	Consts   []string  `json:"consts"`   // package-level constants (value table)
 	Prefixes []string  `json:"prefixes"` // all package-level constants whose name has one of these prefixes
 	Segments []Segment `json:"segments"`
+	Externs  []Extern  `json:"externs"`
+}
+
+// Extern: a function that is not translated; its Lean definition is trusted (see the header comment)
+type Extern struct {
+	Name string `json:"name"` // Go function name
+	Src  string `json:"src"`  // the Go source text (whitespace-normalised) the Lean text was written for
+	Lean string `json:"lean"` // Lean definition(s), emitted verbatim
+	Why  string `json:"why"`
 }
 
 type Targets struct {
@@ -78,6 +104,10 @@ type tr struct {
 	helpers []string
 	selTy   map[string]ty
 	swCount int
+	tmpCount int
+	useCopy bool
+	rngCount int
+	cnt     map[string]int // helper definitions (switch, loop) are numbered per translated function / segment
 	indent  int
 }
 
@@ -448,6 +478,20 @@ func (t *tr) call(x *ast.CallExpr) string {
 			return "(" + leanName(id.Name) + " " + strings.Join(as, " ") + ")"
 		}
 	}
+	// math/bits
+	if se, ok := x.Fun.(*ast.SelectorExpr); ok && len(x.Args) == 1 {
+		if pk, ok := se.X.(*ast.Ident); ok {
+			if pn, ok := t.info.Uses[pk].(*types.PkgName); ok && pn.Imported().Path() == "math/bits" {
+				if ay, ok := t.typeOfExpr(x.Args[0]); ok && ay.kind == "bv" && !ay.signed {
+					want := map[string]int{"LeadingZeros64": 64, "LeadingZeros32": 32, "LeadingZeros16": 16, "LeadingZeros8": 8}
+					if w, ok := want[se.Sel.Name]; ok && w == ay.w {
+						return fmt.Sprintf("((BitVec.clz %s).setWidth 64)", t.expr(x.Args[0]))
+					}
+				}
+				return t.fail(x, "math/bits call %s", src(t.fset, x))
+			}
+		}
+	}
 	// method call recv.M(args) of a translated method `T.M`
 	if se, ok := x.Fun.(*ast.SelectorExpr); ok {
 		if sel := t.info.Uses[se.Sel]; sel != nil {
@@ -535,6 +579,16 @@ func (t *tr) assigned(stmts []ast.Stmt) []string {
 				}
 			case *ast.IncDecStmt:
 				add(x.X)
+			case *ast.ExprStmt:
+				if c, ok := x.X.(*ast.CallExpr); ok {
+					if id, ok := c.Fun.(*ast.Ident); ok && id.Name == "copy" && len(c.Args) == 2 {
+						d := c.Args[0]
+						if se, ok := d.(*ast.SliceExpr); ok {
+							d = se.X
+						}
+						add(d)
+					}
+				}
 			case *ast.DeclStmt:
 				if gd, ok := x.Decl.(*ast.GenDecl); ok {
 					for _, sp := range gd.Specs {
@@ -599,6 +653,9 @@ func (t *tr) zero(T types.Type, n ast.Node) string {
 	case "bool":
 		return "false"
 	case "bytes":
+		if a, ok := T.Underlying().(*types.Array); ok {
+			return fmt.Sprintf("(List.replicate %d 0#8)", a.Len())
+		}
 		return "[]"
 	}
 	return t.fail(n, "zero value")
@@ -698,8 +755,34 @@ func (t *tr) stmts(list []ast.Stmt, tail func() string, results []string) string
 		out += t.stmts(el, func() string { return tp }, results)
 		t.indent -= 2
 		return out + cont()
+	case *ast.ExprStmt:
+		// copy(dst[a:], src) / copy(dst, src) on byte slices, dst a variable
+		if c, ok := x.X.(*ast.CallExpr); ok {
+			if id, ok := c.Fun.(*ast.Ident); ok && id.Name == "copy" && len(c.Args) == 2 {
+				dst, off := c.Args[0], "0"
+				if se, ok := dst.(*ast.SliceExpr); ok && se.High == nil && !se.Slice3 {
+					dst = se.X
+					if se.Low != nil {
+						off = t.natOf(se.Low)
+					}
+				}
+				di, ok1 := dst.(*ast.Ident)
+				dy, ok2 := t.typeOfExpr(dst)
+				sy, ok3 := t.typeOfExpr(c.Args[1])
+				if ok1 && ok2 && ok3 && dy.kind == "bytes" && sy.kind == "bytes" {
+					t.useCopy = true
+					t.notes = append(t.notes, fmt.Sprintf("%s: %s totalised (goCopyAt: Go panics when the offset exceeds len(dst))", t.curFn, src(t.fset, c)))
+					return fmt.Sprintf("%slet %s := goCopyAt %s %s %s\n", t.pad(), leanName(di.Name), leanName(di.Name), off, t.expr(c.Args[1])) + cont()
+				}
+			}
+		}
+		return t.pad() + t.fail(s, "expression statement %s", src(t.fset, x)) + "\n" + cont()
 	case *ast.SwitchStmt:
 		return t.switchStmt(x) + cont()
+	case *ast.ForStmt:
+		return t.forStmt(x) + cont()
+	case *ast.RangeStmt:
+		return t.rangeStmt(x) + cont()
 	case *ast.BlockStmt:
 		return t.stmts(append(append([]ast.Stmt{}, x.List...), rest...), tail, results)
 	}
@@ -725,7 +808,7 @@ func (t *tr) assign(x *ast.AssignStmt) string {
 					v = t.opAssign(x, cur, rhs, ty{"bv", 8, false, nil})
 				}
 				t.notes = append(t.notes, fmt.Sprintf("%s: store %s totalised (List.set)", t.curFn, src(t.fset, ix)))
-				return fmt.Sprintf("%slet %s := %s.set %s %s\n", p, leanName(id.Name), leanName(id.Name), t.natOf(ix.Index), v)
+				return fmt.Sprintf("%slet %s := %s.set %s (%s)\n", p, leanName(id.Name), leanName(id.Name), t.natOf(ix.Index), v)
 			}
 			return p + t.fail(x, "indexed store") + "\n"
 		}
@@ -752,6 +835,44 @@ func (t *tr) assign(x *ast.AssignStmt) string {
 			return p + t.fail(x, "op-assign type") + "\n"
 		}
 		return fmt.Sprintf("%slet %s := %s\n", p, leanName(id.Name), t.opAssign(x, leanName(id.Name), rhs, y))
+	}
+	// u[0], u[1] = e0, e1 : all right-hand sides first (Go's order of evaluation), then the stores left to right
+	if len(x.Lhs) == len(x.Rhs) && x.Tok == token.ASSIGN {
+		anyIdx := false
+		for _, l := range x.Lhs {
+			if _, ok := l.(*ast.IndexExpr); ok {
+				anyIdx = true
+			}
+		}
+		if anyIdx {
+			t.tmpCount++
+			out := ""
+			var tmps []string
+			for i, r := range x.Rhs {
+				tmp := fmt.Sprintf("asg%d_%d", t.tmpCount, i)
+				tmps = append(tmps, tmp)
+				out += fmt.Sprintf("%slet %s := %s\n", p, tmp, t.expr(r))
+			}
+			for i, l := range x.Lhs {
+				switch lx := l.(type) {
+				case *ast.IndexExpr:
+					id, ok := lx.X.(*ast.Ident)
+					y, ok2 := t.typeOfExpr(lx.X)
+					if !ok || !ok2 || y.kind != "bytes" {
+						return p + t.fail(x, "tuple assignment target") + "\n"
+					}
+					t.notes = append(t.notes, fmt.Sprintf("%s: store %s totalised (List.set)", t.curFn, src(t.fset, lx)))
+					out += fmt.Sprintf("%slet %s := %s.set %s %s\n", p, leanName(id.Name), leanName(id.Name), t.natOf(lx.Index), tmps[i])
+				case *ast.Ident:
+					if lx.Name != "_" {
+						out += fmt.Sprintf("%slet %s := %s\n", p, leanName(lx.Name), tmps[i])
+					}
+				default:
+					return p + t.fail(x, "tuple assignment target") + "\n"
+				}
+			}
+			return out
+		}
 	}
 	var names []string
 	for _, l := range x.Lhs {
@@ -863,8 +984,8 @@ func (t *tr) switchStmt(x *ast.SwitchStmt) string {
 	}
 	sort.Slice(pvs, func(i, j int) bool { return pvs[i].pos < pvs[j].pos })
 	tagTy, _ := t.typeOfExpr(x.Tag)
-	t.swCount++
-	hname := leanName(strings.ReplaceAll(strings.ReplaceAll(t.curFn, "/", "_"), ".", "_")) + fmt.Sprintf("_sw%d", t.swCount)
+	t.cnt[t.curFn]++
+	hname := leanName(strings.ReplaceAll(strings.ReplaceAll(t.curFn, "/", "_"), ".", "_")) + fmt.Sprintf("_sw%d", t.cnt[t.curFn])
 	var decls, args, rtys []string
 	for _, v := range pvs {
 		decls = append(decls, fmt.Sprintf("(%s : %s)", leanName(v.name), v.y.lean()))
@@ -919,6 +1040,230 @@ func (t *tr) switchStmt(x *ast.SwitchStmt) string {
 	t.indent = saved
 	t.helpers = append(t.helpers, h)
 	return fmt.Sprintf("%slet %s := %s %s %s\n", p, tp, hname, t.expr(x.Tag), strings.Join(args, " "))
+}
+
+
+// counted loops (see the header comment for the accepted forms):
+//   for i := a; i < b; i++ / i <= b; i++ / i > b; i-- / i >= b; i-- { body }      and      for i := range x / for i, v := range x (x a byte slice)
+// A range statement is rewritten to the ForStmt it abbreviates before translation.
+func (t *tr) rangeStmt(r *ast.RangeStmt) string {
+	p := t.pad()
+	y, ok := t.typeOfExpr(r.X)
+	key, okk := r.Key.(*ast.Ident)
+	if !ok || y.kind != "bytes" || r.Tok != token.DEFINE || !okk {
+		return p + t.fail(r, "range statement form (only `for i := range bytes` / `for i, v := range bytes` / `for _, v := range bytes`)") + "\n"
+	}
+	if _, isId := r.X.(*ast.Ident); !isId {
+		return p + t.fail(r, "range over a non-variable") + "\n"
+	}
+	t.rngCount++
+	iname := key.Name
+	if iname == "_" {
+		iname = fmt.Sprintf("rng_i%d", t.rngCount)
+	}
+	var pre []string
+	if r.Value != nil {
+		v, okv := r.Value.(*ast.Ident)
+		if !okv {
+			return p + t.fail(r, "range value") + "\n"
+		}
+		if v.Name != "_" {
+			t.notes = append(t.notes, fmt.Sprintf("%s: range value %s := %s[%s] totalised (getD … 0)", t.curFn, v.Name, src(t.fset, r.X), iname))
+			pre = append(pre, fmt.Sprintf("let %s := (%s.getD %s.toNat 0#8)", leanName(v.Name), t.expr(r.X), leanName(iname)))
+		}
+	}
+	return t.loop(r, r.Body, leanName(iname), ty{"bv", 64, true, nil}, "0x0#64", "(BitVec.ofNat 64 "+t.expr(r.X)+".length)", token.LSS, true,
+		[]ast.Node{r.X}, pre, "range "+src(t.fset, r.X), key.Name)
+}
+
+func (t *tr) forStmt(x *ast.ForStmt) string {
+	p := t.pad()
+	init, ok1 := x.Init.(*ast.AssignStmt)
+	cond, ok2 := x.Cond.(*ast.BinaryExpr)
+	post, ok3 := x.Post.(*ast.IncDecStmt)
+	if !ok1 || !ok2 || !ok3 || init.Tok != token.DEFINE || len(init.Lhs) != 1 || len(init.Rhs) != 1 {
+		return p + t.fail(x, "for statement form (only `for i := a; i <|<=|>|>= b; i++|i--`)") + "\n"
+	}
+	up := post.Tok == token.INC
+	switch {
+	case up && (cond.Op == token.LSS || cond.Op == token.LEQ):
+	case !up && (cond.Op == token.GTR || cond.Op == token.GEQ):
+	default:
+		return p + t.fail(x, "for statement form (condition %s with %s)", cond.Op, post.Tok) + "\n"
+	}
+	iv, ok := init.Lhs[0].(*ast.Ident)
+	ci, okc := cond.X.(*ast.Ident)
+	pi, okp := post.X.(*ast.Ident)
+	if !ok || !okc || !okp || ci.Name != iv.Name || pi.Name != iv.Name {
+		return p + t.fail(x, "for statement form (loop variable)") + "\n"
+	}
+	iobj := t.info.Defs[iv]
+	if iobj == nil || t.info.Uses[ci] != iobj || t.info.Uses[pi] != iobj {
+		return p + t.fail(x, "for statement form (loop variable object)") + "\n"
+	}
+	iy, ok := t.tyOf(iobj.Type())
+	if !ok || iy.kind != "bv" {
+		return p + t.fail(x, "loop variable type") + "\n"
+	}
+	return t.loop(x, x.Body, leanName(iv.Name), iy, t.expr(init.Rhs[0]), t.expr(cond.Y), cond.Op, up, []ast.Node{cond.Y}, nil,
+		src(t.fset, init)+"; "+src(t.fset, cond)+"; "+src(t.fset, post), iv.Name)
+}
+
+// loop emits the helper definition for a counted loop and returns the call. `a` and `b` are the translated start and
+// bound, `op` the comparison `i op b`, `up` the direction of the step (±1); `boundNodes` are the Go expressions the bound
+// is made of (none of their variables may be assigned in the body); `pre` are let-lines put in front of the body.
+func (t *tr) loop(x ast.Node, body *ast.BlockStmt, i string, iy ty, a, b string, op token.Token, up bool, boundNodes []ast.Node, pre []string, what, goI string) string {
+	p := t.pad()
+	bad := ""
+	ast.Inspect(body, func(n ast.Node) bool {
+		switch n.(type) {
+		case *ast.BranchStmt:
+			bad = "break/continue/goto"
+		case *ast.ReturnStmt:
+			bad = "return"
+		case *ast.FuncLit, *ast.DeferStmt, *ast.GoStmt:
+			bad = "closure/defer/go"
+		}
+		return true
+	})
+	if bad != "" {
+		return p + t.fail(x, "%s inside a loop body", bad) + "\n"
+	}
+	carried := t.assigned(body.List)
+	isCarried := map[string]bool{}
+	for _, c := range carried {
+		isCarried[c] = true
+	}
+	if isCarried[goI] {
+		return p + t.fail(x, "loop variable assigned in the body") + "\n"
+	}
+	boundBad := false
+	for _, bn := range boundNodes {
+		ast.Inspect(bn, func(n ast.Node) bool {
+			if id, ok := n.(*ast.Ident); ok && isCarried[id.Name] {
+				boundBad = true
+			}
+			return true
+		})
+	}
+	if boundBad {
+		return p + t.fail(x, "loop bound assigned in the body") + "\n"
+	}
+	if len(carried) == 0 {
+		return ""
+	}
+	// free variables of body and bound (declared outside the for statement), in order of declaration
+	type pv struct {
+		name string
+		pos  token.Pos
+		y    ty
+	}
+	var pvs []pv
+	seen := map[types.Object]bool{}
+	collect := func(root ast.Node) {
+		ast.Inspect(root, func(n ast.Node) bool {
+			id, ok := n.(*ast.Ident)
+			if !ok {
+				return true
+			}
+			obj, ok := t.info.ObjectOf(id).(*types.Var)
+			if !ok || obj.Parent() == t.pkg.Scope() || obj.IsField() || seen[obj] {
+				return true
+			}
+			if obj.Pos() >= x.Pos() && obj.Pos() < x.End() {
+				return true // declared inside the loop (the loop variable, body locals)
+			}
+			seen[obj] = true
+			y, ok := t.tyOf(obj.Type())
+			if !ok {
+				t.fail(id, "loop variable type %s", obj.Type())
+			}
+			pvs = append(pvs, pv{obj.Name(), obj.Pos(), y})
+			return true
+		})
+	}
+	for _, bn := range boundNodes {
+		collect(bn)
+	}
+	collect(body)
+	sort.Slice(pvs, func(i, j int) bool { return pvs[i].pos < pvs[j].pos })
+	t.cnt[t.curFn]++
+	hname := leanName(strings.ReplaceAll(strings.ReplaceAll(t.curFn, "/", "_"), ".", "_")) + fmt.Sprintf("_loop%d", t.cnt[t.curFn])
+	var fdecls, fargs, cdecls, cargs, rtys []string
+	for _, v := range pvs {
+		if isCarried[v.name] {
+			continue
+		}
+		fdecls = append(fdecls, fmt.Sprintf("(%s : %s)", leanName(v.name), v.y.lean()))
+		fargs = append(fargs, leanName(v.name))
+	}
+	for _, c := range carried {
+		found := false
+		for _, v := range pvs {
+			if v.name == c {
+				cdecls = append(cdecls, fmt.Sprintf("(%s : %s)", leanName(c), v.y.lean()))
+				cargs = append(cargs, leanName(c))
+				rtys = append(rtys, v.y.lean())
+				found = true
+			}
+		}
+		if !found {
+			return p + t.fail(x, "carried variable %s", c) + "\n"
+		}
+	}
+	tp := tuple(carried)
+	pos := t.fset.Position(x.Pos())
+	h := fmt.Sprintf("/-- %s: the loop `for %s` of `%s`: at most `fuel` iterations; carried variables %s -/\n",
+		filepath.Base(pos.Filename), what, t.curFn, strings.Join(carried, ", "))
+	h += fmt.Sprintf("def %s %s (fuel : Nat) (%s : %s) %s : %s :=\n", hname, strings.Join(fdecls, " "), i, iy.lean(), strings.Join(cdecls, " "), strings.Join(rtys, " × "))
+	saved := t.indent
+	t.indent = 1
+	hp := t.pad()
+	h += hp + "match fuel with\n" + hp + "| 0 => " + tp + "\n" + hp + "| fuel + 1 =>\n"
+	t.indent = 2
+	hp = t.pad()
+	cmp := map[token.Token][2]string{token.LSS: {"BitVec.slt", "BitVec.ult"}, token.LEQ: {"BitVec.sle", "BitVec.ule"}}
+	var condS string
+	sg := 1
+	if iy.signed {
+		sg = 0
+	}
+	switch op {
+	case token.LSS, token.LEQ:
+		condS = fmt.Sprintf("(%s %s %s)", cmp[op][sg], i, b)
+	case token.GTR:
+		condS = fmt.Sprintf("(%s %s %s)", cmp[token.LSS][sg], b, i)
+	case token.GEQ:
+		condS = fmt.Sprintf("(%s %s %s)", cmp[token.LEQ][sg], b, i)
+	}
+	h += hp + "if " + condS + " then\n"
+	t.indent = 3
+	step := "+"
+	if !up {
+		step = "-"
+	}
+	rec := fmt.Sprintf("%s %s fuel (%s %s 0x1#%d) %s", hname, strings.Join(fargs, " "), i, step, iy.w, strings.Join(cargs, " "))
+	for _, l := range pre {
+		h += t.pad() + l + "\n"
+	}
+	h += t.stmts(body.List, func() string { return rec }, nil)
+	t.indent = 2
+	h += hp + "else " + tp + "\n"
+	t.indent = saved
+	t.helpers = append(t.helpers, h)
+	// the trip count (exact whenever the loop runs without wrapping; the condition is false at once otherwise)
+	var fuel string
+	switch op {
+	case token.LSS:
+		fuel = fmt.Sprintf("((%s - %s).toNat)", b, a)
+	case token.LEQ:
+		fuel = fmt.Sprintf("((%s - %s).toNat + 1)", b, a)
+	case token.GTR:
+		fuel = fmt.Sprintf("((%s - %s).toNat)", a, b)
+	case token.GEQ:
+		fuel = fmt.Sprintf("((%s - %s).toNat + 1)", a, b)
+	}
+	return fmt.Sprintf("%slet %s := %s %s %s %s %s\n", p, tp, hname, strings.Join(fargs, " "), fuel, a, strings.Join(cargs, " "))
 }
 
 // ---- functions, segments, constants
@@ -1003,10 +1348,14 @@ func findSegment(fset *token.FileSet, body *ast.BlockStmt, first, last string) [
 		default:
 			return true
 		}
+		// a pattern ending in "{" names a compound statement (for / if / switch) by its header
+		match := func(text, pat string) bool {
+			return text == pat || (strings.HasSuffix(pat, "{") && strings.HasPrefix(text, pat))
+		}
 		for i, s := range list {
-			if src(fset, s) == first {
+			if match(src(fset, s), first) {
 				for j := i; j < len(list); j++ {
-					if src(fset, list[j]) == last {
+					if match(src(fset, list[j]), last) {
 						found = list[i : j+1]
 						return false
 					}
@@ -1206,7 +1555,7 @@ func main() {
 		info := &types.Info{Types: map[ast.Expr]types.TypeAndValue{}, Defs: map[*ast.Ident]types.Object{}, Uses: map[*ast.Ident]types.Object{}}
 		conf := types.Config{Importer: importer.ForCompiler(fset, "source", nil), Error: func(error) {}, FakeImportC: true}
 		pkg, _ := conf.Check(bp.ImportPath, fset, files, info)
-		t := &tr{fset: fset, info: info, pkg: pkg, known: map[string]bool{}, selTy: map[string]ty{}}
+		t := &tr{fset: fset, info: info, pkg: pkg, known: map[string]bool{}, selTy: map[string]ty{}, cnt: map[string]int{}}
 		decls := map[string]*ast.FuncDecl{}
 		for _, f := range files {
 			for _, d := range f.Decls {
@@ -1229,6 +1578,20 @@ func main() {
 			t.known[f] = true
 		}
 		var body strings.Builder
+		for _, ex := range m.Externs {
+			fd := decls[ex.Name]
+			if fd == nil {
+				allErrs = append(allErrs, fmt.Sprintf("%s: extern %s not found", m.Lean, ex.Name))
+				continue
+			}
+			if got := src(fset, fd); got != ex.Src {
+				allErrs = append(allErrs, fmt.Sprintf("%s: extern %s: the Go source changed since its trusted Lean definition was written (re-validate it): %s", m.Lean, ex.Name, got))
+				continue
+			}
+			t.known[ex.Name] = true
+			pos := fset.Position(fd.Pos())
+			fmt.Fprintf(&body, "/-- EXTERN (TRUSTED, not translated) %s `%s`: %s\n    written for the source text: %s -/\n%s\n\n", filepath.Base(pos.Filename), ex.Name, ex.Why, ex.Src, ex.Lean)
+		}
 		// constants
 		names := append([]string{}, m.Consts...)
 		if len(m.Prefixes) > 0 {
@@ -1311,6 +1674,9 @@ func main() {
 			}
 		}
 		fmt.Fprintf(&hdr, "-/\nset_option linter.unusedVariables false\nnamespace %s\n\n", m.Lean)
+		if t.useCopy {
+			hdr.WriteString("/-- Go's `copy(dst[a:], src)` on byte slices: min(len(src), len(dst)-a) bytes are overwritten from offset a -/\ndef goCopyAt (dst : List (BitVec 8)) (a : Nat) (src : List (BitVec 8)) : List (BitVec 8) :=\n  let n := min src.length (dst.length - a)\n  dst.take a ++ src.take n ++ dst.drop (a + n)\n\n")
+		}
 		outp := filepath.Join(outdir, strings.ReplaceAll(m.Lean, ".", "/")+".lean")
 		content := hdr.String() + body.String() + "end " + m.Lean + "\n"
 		if len(t.errs) > 0 {
